@@ -18,6 +18,10 @@ func init() {
 func genScanPlan(seed uint64, thorough bool) *Plan {
 	g := newGen(seed, 11)
 	p := &Plan{Prop: "C17", Seed: seed, Class: "turns", Knobs: Knobs{Turns: true, RandSeed: int64(seed), MaxSteps: 400000, Sticky: 70}}
+	if seed%4 == 3 {
+		p.Knobs.MaxSteps = 1500000
+		p.Knobs.Sticky = 30
+	}
 	kind := g.pick("scan", "hscan", "sscan")
 	p.Note = kind
 	size := []int{0, 3, 17, 40, 120, 300, 600}[g.r.IntN(7)]
@@ -153,6 +157,74 @@ func genScanPlan(seed uint64, thorough bool) *Plan {
 		}
 		muts = append(muts, Client{Name: "mutator", Items: items})
 	}
+	if seed%4 == 3 {
+		// class shrink: a few stable elements in a table blown up by a burst of
+		// temporary ones; while the scanner walks it a few elements per call,
+		// the temporaries are removed and further add/remove churn makes the
+		// table halve again and again under the outstanding cursor
+		p.Class = "shrink"
+		stable := 3 + g.r.IntN(10)
+		temps := []int{10, 20, 40}[g.r.IntN(3)]
+		cycles := 300 + g.r.IntN(1200)
+		setup = setup[:0]
+		size, next = 0, 0
+		bulk(0, stable+temps)
+		setup = append(setup, Item{Op: "barrier", N: 1})
+		scanner = []Item{{Op: "barrier", N: 1}}
+		for it := 0; it < cycles/4; it++ {
+			a := []string{"SCAN", "$cursor"}
+			if kind == "hscan" {
+				a = []string{"HSCAN", "coll", "$cursor"}
+			} else if kind == "sscan" {
+				a = []string{"SSCAN", "coll", "$cursor"}
+			}
+			a = append(a, "COUNT", g.pick("1", "2", "3"))
+			scanner = append(scanner, Item{Args: bs(a...), Tag: "scanloop", N: 5000})
+		}
+		rm := func(from, to int) []string {
+			var a []string
+			switch kind {
+			case "hscan":
+				a = []string{"HDEL", "coll"}
+			case "sscan":
+				a = []string{"SREM", "coll"}
+			default:
+				a = []string{"DEL"}
+			}
+			for j := from; j < to; j++ {
+				a = append(a, name(j))
+			}
+			return a
+		}
+		add := func(from, to int) []string {
+			var a []string
+			switch kind {
+			case "hscan":
+				a = []string{"HSET", "coll"}
+			case "sscan":
+				a = []string{"SADD", "coll"}
+			default:
+				a = []string{"MSET"}
+			}
+			for j := from; j < to; j++ {
+				a = append(a, name(j))
+				if kind != "sscan" {
+					a = append(a, "v")
+				}
+			}
+			return a
+		}
+		items := []Item{{Op: "barrier", N: 1}}
+		for i := stable; i < stable+temps; i += 40 {
+			items = append(items, cmdItem(rm(i, min(i+40, stable+temps))...))
+		}
+		base := stable + temps
+		// the table only halves after more removals than half its size: churn
+		for i := 0; i < cycles; i++ {
+			items = append(items, cmdItem(add(base, base+2)...), cmdItem(rm(base, base+2)...))
+		}
+		muts = []Client{{Name: "mutator", Items: items}}
+	}
 	p.Clients = append([]Client{{Name: "setup", Items: setup}, {Name: "scanner", Items: scanner}}, muts...)
 	return p
 }
@@ -174,6 +246,7 @@ type scanChecker struct {
 	completed int
 	rehashed  int
 	maxB      int
+	shrunk    int // times the table got smaller while an iteration was under way
 }
 
 func newScanChecker(p *Plan) Checker {
@@ -183,7 +256,7 @@ func newScanChecker(p *Plan) Checker {
 func (c *scanChecker) OnStep(w *World) *Violation { return nil }
 func (c *scanChecker) Final(w *World) *Violation  { return nil }
 func (c *scanChecker) Extra() map[string]int {
-	return map[string]int{"iterations-completed": c.completed, "rehash-during-iteration": c.rehashed, "max-buckets": c.maxB}
+	return map[string]int{"iterations-completed": c.completed, "rehash-during-iteration": c.rehashed, "max-buckets": c.maxB, "shrink-during-iteration": c.shrunk}
 }
 
 // current: the collection the scanner iterates, as the model sees it now.
@@ -235,6 +308,9 @@ func (c *scanChecker) OnReply(w *World, op *Op) *Violation {
 		}
 		if st != c.iter.lastBuckets {
 			c.iter.rehash = true
+			if st < c.iter.lastBuckets {
+				c.shrunk++
+			}
 			c.iter.lastBuckets = st
 		}
 	}
